@@ -101,8 +101,20 @@ class Run:
 
     # ------------------------------------------------------------ extraction
     def build_inst(self, inst, defines=()):
+        import threading
+        if not hasattr(self, '_build_lock'): self._build_lock = threading.Lock(); self._build_failed = {}
+        with self._build_lock:
+            key = (inst, tuple(defines))
+            if key in self.inst_built: return self.inst_built[key]
+            if key in self._build_failed: raise Undecided(self._build_failed[key])
+            try:
+                return self._build_inst(inst, defines)
+            except Undecided as e:
+                self._build_failed[key] = str(e)
+                raise
+
+    def _build_inst(self, inst, defines=()):
         key = (inst, tuple(defines))
-        if key in self.inst_built: return self.inst_built[key]
         tag = inst + ('_' + hashlib.sha1(' '.join(defines).encode()).hexdigest()[:6] if defines else '')
         src = os.path.join(VERIF, 'inst', inst + '.cpp')
         js = os.path.join(self.work, tag + '.json')
@@ -190,7 +202,8 @@ class Run:
             for r in unit.replace:
                 try:
                     reps.append(self.resolve_target(info, r))
-                except Undecided:
+                except Undecided as e:
+                    if 'resolves to 0 functions' not in str(e): raise
                     # callee contract marked @optional whose function is no longer called: nothing to replace
                     res.setdefault('replace_skipped', []).append(r)
             ud = os.path.join(self.work, 'u_' + re.sub(r'\W+', '_', unit.name))
